@@ -2,7 +2,7 @@
    Match.data operations; the observation after every operation is the outcome plus a deep snapshot.
    Model file: definitions only. *)
 From Coq Require Import List ZArith String Bool PArith.
-From TP Require Import Json PyPrim Machine Api Obs Dsl Run Mutate.
+From TP Require Import Json PyPrim Machine Api Obs Dsl Run Mutate SpecSet.
 Import ListNotations.
 Open Scope string_scope.
 Open Scope list_scope.
@@ -55,6 +55,34 @@ Definition with_data (m : jtm) (v : json) : jtm :=
   | TPar i rem rp nm _ x y => TPar i rem rp nm v x y
   end.
 
+(* structural equality of documents, identity labels included *)
+Fixpoint json_eqb (a b : json) : bool :=
+  match a, b with
+  | JNull, JNull => true
+  | JBool x, JBool y => Bool.eqb x y
+  | JInt x, JInt y => Z.eqb x y
+  | JFloat x, JFloat y => Z.eqb x y
+  | JStr x, JStr y => String.eqb x y
+  | JList i l, JList j m =>
+      Nat.eqb i j &&
+      (fix go (l m : list json) : bool :=
+         match l, m with [], [] => true | x :: l', y :: m' => json_eqb x y && go l' m' | _, _ => false end) l m
+  | JDict i l, JDict j m =>
+      Nat.eqb i j &&
+      (fix go (l m : list (string * json)) : bool :=
+         match l, m with
+         | [], [] => true
+         | (k, x) :: l', (k', y) :: m' => String.eqb k k' && json_eqb x y && go l' m'
+         | _, _ => false
+         end) l m
+  | _, _ => false
+  end.
+
+(* the held match is a current view of the document: its explicit path leads to the value it holds (hypothesis
+   `lookup doc bp = Some (tdata m)` of set_match_cset_from, with bp = explicit_path m) *)
+Definition currentb (doc : json) (m : jtm) : bool :=
+  match lookup doc (explicit_path m) with Some y => json_eqb y (tdata m) | None => false end.
+
 Section WithBudget.
 Variable B : positive.
 
@@ -71,7 +99,8 @@ Inductive mop :=
 | MGet (p : jpath) (d : @default)                         (* get(p, doc[, default]) : no store *)
 | MFind (p : jpath)                                       (* list(find(p, doc)) *)
 | MSetFrom (p : jpath) (v : json) (cascade : bool)        (* set_(p, v, held[-1], cascade): the Match just held is the data source *)
-| MPopFrom (p : jpath) (d : option json).                 (* pop(p, held[-1][, default]) *)
+| MPopFrom (p : jpath) (d : option json)                  (* pop(p, held[-1][, default]) *)
+| MGetStoreFrom (p : jpath) (d : @default).               (* get(p, held[-1], default=..., store_default=True) *)
 
 Record mcase := { m_doc0 : json; m_nl0 : nat; m_ops : list mop }.
 (* m_fresh: the previous operation was a successful hold (the last held match is a current view of the document) *)
@@ -241,8 +270,28 @@ Definition run_mop (e : menv) (o : mop) : otree * menv :=
       | None => finish (ON "skip" []) doc (m_nl e) (m_held e)
       | Some m =>
           match m_set_match (S (List.length p)) (SrcMatch m) doc p v cascade None (m_nl e) with
-          | (Ok r, doc', nl', es) => finish (ON "setfrom" [ON "value" [lval (tdata r)]; oevents es]) doc' nl' (m_held e)
-          | (Exn x, doc', nl', es) => finish (ON "setfrom" [ON "raise" [oexn x]; oevents es]) doc' nl' (m_held e)
+          | (Ok r, doc', nl', es) =>
+              finish (ON "setfrom" [ON "value" [lval (tdata r)]; oevents es;
+                                    ON "fresh" [obool (freshb doc (m_nl e) (List.length p) && currentb doc m)]]) doc' nl' (m_held e)
+          | (Exn x, doc', nl', es) =>
+              finish (ON "setfrom" [ON "raise" [oexn x]; oevents es;
+                                    ON "fresh" [obool (freshb doc (m_nl e) (List.length p) && currentb doc m)]]) doc' nl' (m_held e)
+          end
+      end
+  | MGetStoreFrom p d =>
+      match (if m_fresh e then List.last (map Some (m_held e)) None else None) with
+      | None => finish (ON "skip" []) doc (m_nl e) (m_held e)
+      | Some m =>
+          match j_get B (SrcMatch m) p d None with
+          | (Ok (GData r), es) => finish (ON "getstorefrom" [ON "got" [lval (tdata r)]; oevents es]) doc (m_nl e) (m_held e)
+          | (Ok (GDefault v), es) =>
+              match m_set_match (S (List.length p)) (SrcMatch m) doc p v true None (m_nl e) with
+              | (Ok _, doc', nl', es') =>
+                  finish (ON "getstorefrom" [ON "got" [lval v]; oevents (es ++ es')]) doc' nl' (m_held e)
+              | (Exn x, doc', nl', es') =>
+                  finish (ON "getstorefrom" [ON "raise" [oexn x]; oevents (es ++ es')]) doc' nl' (m_held e)
+              end
+          | (Exn x, es) => finish (ON "getstorefrom" [ON "raise" [oexn x]; oevents es]) doc (m_nl e) (m_held e)
           end
       end
   | MPopFrom p d =>
